@@ -529,6 +529,10 @@ func (fx *FnExec) havocLoc(env *CEnv, old, st *State, x *CExpr) []func() {
 	// forms: p.f   *p   p.*   s[..] / s[i:j]   ghost   p.$ghost
 	switch x.Op {
 	case "call":
+		if x.Name == "opaque" {
+			// state private to the object behind an interface / handle: nothing of the modelled heap changes
+			return nil
+		}
 		if x.Name == "mapof" && len(x.Args) == 1 {
 			// the entries of one Go map
 			mv := env.Eval(x.Args[0])
@@ -1149,5 +1153,34 @@ func (fx *FnExec) bornAtEntry(v Val) {
 		if x.Sort == RefSort {
 			zero(x)
 		}
+	}
+}
+
+// spawnRequires checks the preconditions of a contracted function at its `go` site.
+func (fx *FnExec) spawnRequires(fr *frame, st *State, g *ssa.Go) {
+	callee := g.Call.StaticCallee()
+	if callee == nil {
+		return
+	}
+	key := funcKey(callee)
+	fc := fx.eng.db.Funcs[key]
+	if fc == nil || len(fc.Requires) == 0 {
+		return
+	}
+	var args []Val
+	for _, a := range g.Call.Args {
+		args = append(args, fx.coerce(fx.val(fr, a), a.Type()))
+	}
+	var recv Val
+	if callee.Signature.Recv() != nil && len(args) > 0 {
+		recv, args = args[0], args[1:]
+	}
+	vars := fx.bindContractVars(fc, callee.Signature, recv, args)
+	env := &CEnv{fx: fx, st: st, vars: vars, fr: &frame{fn: callee}}
+	fx.callSeq++
+	fx.usedContracts[key] = fc
+	for k, rq := range fc.Requires {
+		gl := fx.evalCallClause(env, rq, "requires of "+key)
+		fx.obligeNamed(fr, st, fmt.Sprintf("go%d:%s/requires/%d", fx.callSeq, shortKey(key), k+1), "requires", g.Pos(), gl, "precondition of spawned "+key+": "+rq.Src)
 	}
 }
